@@ -11,25 +11,25 @@ def plans(tier):
     if tier == "quick":
         return [
             {"name": "bfs-1agent", "variant": "os", "mode": "thread",
-             "gen": dict(agents=(0,), maxch=2, maxreg=0, maxslots=1, maxops=3), "filter": nontrivial},
+             "gen": dict(failsends=True, agents=(0,), maxch=2, maxreg=0, maxslots=1, maxops=3), "filter": nontrivial},
             {"name": "bfs-2agents-process", "variant": "os", "mode": "process",
              "gen": dict(agents=(0, 1), maxch=1, maxreg=0, maxslots=1, maxops=3), "filter": nontrivial, "limit": 1500},
             {"name": "sim-2agents-thread", "variant": "os", "mode": "thread",
-             "gen": dict(agents=(0, 1), maxch=3, maxreg=0, maxslots=2, maxops=16, minops=8, maxqueue=3,
+             "gen": dict(failsends=True, agents=(0, 1), maxch=3, maxreg=0, maxslots=2, maxops=16, minops=8, maxqueue=3,
                          kinds=("typed", "bytes"), simulate=40, depth=100, tlcseed=chancheck.seed())},
         ]
     return [
         {"name": "bfs-1agent-d4", "variant": "os", "mode": "thread",
-         "gen": dict(agents=(0,), maxch=2, maxreg=0, maxslots=1, maxops=4), "filter": nontrivial},
+         "gen": dict(failsends=True, agents=(0,), maxch=2, maxreg=0, maxslots=1, maxops=4), "filter": nontrivial},
         {"name": "bfs-2agents-process-d4", "variant": "os", "mode": "process",
          "gen": dict(agents=(0, 1), maxch=1, maxreg=0, maxslots=1, maxops=4), "filter": nontrivial, "limit": 20000},
         {"name": "bfs-2agents-thread-d4", "variant": "os", "mode": "thread",
          "gen": dict(agents=(0, 1), maxch=1, maxreg=0, maxslots=1, maxops=4), "filter": nontrivial},
         {"name": "sim-6ch-process", "variant": "os", "mode": "process",
-         "gen": dict(agents=(0, 1), maxch=5, maxreg=0, maxslots=2, maxops=60, minops=25, maxqueue=4,
+         "gen": dict(failsends=True, agents=(0, 1), maxch=5, maxreg=0, maxslots=2, maxops=60, minops=25, maxqueue=4,
                      kinds=("typed", "bytes"), simulate=250, depth=300, tlcseed=chancheck.seed())},
         {"name": "sim-6ch-inprocess", "variant": "inprocess", "mode": "thread",
-         "gen": dict(agents=(0, 1), maxch=5, maxreg=0, maxslots=2, maxops=40, minops=15, maxqueue=4,
+         "gen": dict(failsends=True, agents=(0, 1), maxch=5, maxreg=0, maxslots=2, maxops=40, minops=15, maxqueue=4,
                      kinds=("typed", "bytes"), simulate=60, depth=200, tlcseed=chancheck.seed() + 1)},
     ]
 
